@@ -113,6 +113,10 @@ var invalidYAML = []string{"a: [1, 2", "a:\n\t- b", "\"unterminated", "{a: 1", "
 func (g *fgen) call(apis []string, cfgs []string) *callSpec {
 	api := apis[g.r.Intn(len(apis))]
 	c := &callSpec{api: api, cfg: cfgs[g.r.Intn(len(cfgs))]}
+	if (api == "ssnap" || api == "sjson") && (c.cfg == "f" || c.cfg == "e") {
+		// premise (DESIGN.md 6.0): a standalone Filename pattern is not shared between tests
+		c.cfg = "c"
+	}
 	switch api {
 	case "snapshot":
 		switch {
